@@ -541,6 +541,22 @@ func genC05(r *simrt.Rand, tier string, idx uint64) *Plan {
 		}
 	}
 	p.Params = map[string]int{"multi": b2i(multi)}
+	if idx%5 == 4 {
+		// the client goes away while several of its requests are queued or executing on the server:
+		// what was received is still executed one at a time and in order
+		for i := range p.Clients {
+			for j := range p.Clients[i].Ops {
+				op := &p.Clients[i].Ops[j]
+				if op.Kind == "gos" && op.Bad == "" && op.Flags&FlFail == 0 && r.Chance(1, 2) {
+					op.Flags |= FlSlow
+					op.Arg = uint32(50 + r.Intn(400))
+				}
+			}
+		}
+		f := Fault{Kind: []string{"closeconn", "cut"}[r.Intn(2)], Conn: r.Intn(len(p.Conns)), RST: r.Bool()}
+		p.Clients = append(p.Clients, ClientPlan{Conn: f.Conn, Ops: []Op{{Kind: "sleep", N: 20 + r.Intn(600)}, {Kind: "spin", N: r.Intn(6)}, {Kind: "fault", Fault: &f}}})
+		p.Params["disconnect"] = 1
+	}
 	return p
 }
 
@@ -608,9 +624,10 @@ func checkC05(w *World, run *simrt.Run) {
 		}
 	}
 	// client pipelining: completions arrive on the shared Done channel in issue order
+	// (not judged when the connection is cut: the property's histories are fault-free on that side)
 	for cli, arr := range w.Arrivals {
 		cp := w.P.Clients[cli]
-		if !w.P.Conns[cp.Conn].Pipelining || w.P.Params["multi"] == 1 {
+		if !w.P.Conns[cp.Conn].Pipelining || w.P.Params["multi"] == 1 || w.P.Params["disconnect"] == 1 {
 			continue
 		}
 		var lastID uint64
